@@ -139,7 +139,16 @@ def one_run(root, fmt_args, files, ofile):
         os.remove(outp)
     if ofile:
         args.append("--output-file=report.out")
-    rcode, out, err = vlib.run([vlib.cppcheck_bin()] + args + files, cwd=root, timeout=120)
+    for attempt in range(6):
+        try:
+            rcode, out, err = vlib.run([vlib.cppcheck_bin()] + args + files, cwd=root, timeout=120)
+            break
+        except OSError as ex:       # the shared build tree is being relinked by another check: wait for it
+            if attempt == 5:
+                raise vlib.InfraError("cannot execute %s: %s" % (vlib.cppcheck_bin(), ex))
+            time.sleep(5)
+            vlib._built.clear()
+            vlib.build()
     if rcode is None:
         raise vlib.InfraError("cppcheck timed out: %r" % (args,))
     if ofile:
